@@ -331,8 +331,28 @@ def r145(ctx):
         ctx.ok("R-14.5", ap, "energy writer: missing values are detected with `is None`; no `value or default` in the path-file writers/readers")
 
 
+def r147(ctx):
+    """The text files of a stored path are written from scratch: load_path reads the first
+    block of order.txt / traj.txt / energy.txt, so a file opened for appending under a path
+    number whose directory already exists reads back the *old* path."""
+    rid = "R-14.7"
+    g = ctx.tree.func(FORMATTER, "PathStorage.output_path_files")
+    n = 0
+    for c in [c for c in walk_local(g) if isinstance(c, ast.Call) and dotted(c.func) == "open"]:
+        n += 1
+        mode = kwarg(c, "mode", 1)
+        if isinstance(mode, ast.Constant) and isinstance(mode.value, str) and mode.value.startswith("w"):
+            ctx.ok(rid, c, "path text files are opened 'w': what is read back is the path that was stored")
+        else:
+            ctx.bad(rid, c, "a path's text file is not opened with mode 'w': stored under a path number whose directory already holds files, the new block is appended and load_path reads the stale first block (length, frame references, order parameters of another path)",
+                    construct="open(..., mode=" + (ast.unparse(mode) if mode is not None else "<default>") + ") in output_path_files")
+    if n == 0:
+        raise AnalysisError("R-14.7: no open() call in PathStorage.output_path_files")
+
+
 def run(ctx):
     ctx.rule("R-14.5", "path-file writers write values as they are: 0.0 is never mistaken for a missing value", floor=1)
+    ctx.rule("R-14.7", "the text files of a stored path are opened for writing from scratch (load_path reads the first block only)", floor=1)
     ctx.rule("R-14.6", "no `for` variable of the path storage / loading code is read after its loop has ended", floor=8)
     ctx.rule("R-14.1", "traj.txt column roles and the trajectory sub-directory agree between writer and reader", floor=9)
     ctx.rule("R-14.2", "order.txt / energy.txt layouts and file names agree between writer and readers", floor=7)
@@ -343,11 +363,14 @@ def run(ctx):
     ctx.attempt(r143, ctx)
     ctx.attempt(r144, ctx)
     ctx.attempt(r145, ctx)
+    ctx.attempt(r147, ctx)
     from .shared import stale_loop_variable
     ctx.attempt(stale_loop_variable, ctx, "R-14.6", [FORMATTER, PATH], None, " (another frame / file than the one being stored or loaded is handled)")
 
 
 VARIANTS = [
+    B("c14-path-files-appended", FORMATTER, 'with open(full_path, mode="w", encoding="utf8") as output:', 'with open(full_path, mode="a", encoding="utf8") as output:', "R-14.7", control=True, why="seeded C14_c"),
+    K("c14-keep-path-files-positional-mode", FORMATTER, 'with open(full_path, mode="w", encoding="utf8") as output:', 'with open(full_path, "wt", encoding="utf8") as output:'),
     B("c14-order-line-after-loop", FORMATTER, "        for i, phasepoint in enumerate(path.phasepoints):\n            yield self.format_data(i, phasepoint.order)", "        for i, phasepoint in enumerate(path.phasepoints):\n            pass\n        yield self.format_data(i, phasepoint.order)", "R-14.6", control=True),
     B("c14-traj-columns-swapped", FORMATTER, "            yield self.FMT.format(i, filename_short, idx, vel)", "            yield self.FMT.format(i, idx, filename_short, vel)", "R-14.1", control=True),
     B("c14-vel-convention-inverted", FORMATTER, "            vel = -1 if phasepoint.vel_rev else 1", "            vel = 1 if phasepoint.vel_rev else -1", "R-14.1"),
